@@ -302,8 +302,9 @@ Settle ==
    requires is free).  In BFS mode every graph is generated once, in
    simulation mode graphs are drawn at random.                              *)
 GenEdge(m, d, form, poke) ==
+  /\ Mode = "c11"
   /\ ctl.ph = "gen"
-  /\ Len(gen) = 0 \/ Idx(gen[Len(gen)].m) <= Idx(m)
+  /\ IF Len(gen) = 0 THEN TRUE ELSE Idx(gen[Len(gen)].m) <= Idx(m)
   /\ Cardinality({k \in DOMAIN gen : gen[k].m = m}) < MaxOut
   /\ \A k \in DOMAIN gen : ~(gen[k].m = m /\ gen[k].d = d)
   /\ poke => form # "imp"                 \* the import list has no bump
@@ -315,6 +316,7 @@ GenEdge(m, d, form, poke) ==
 FsRec == [g |-> gen, fs |-> [m \in DOMAIN FS |-> [syn |-> FS[m].syn, body |-> FS[m].body]]]
 
 GenDone(e) ==
+  /\ Mode = "c11"
   /\ ctl.ph = "gen"
   /\ ctl' = Idle
   /\ UNCHANGED <<sess, mods, mstack, loads, gen, nreq>>
@@ -337,8 +339,8 @@ NextE(e) ==
   \/ \E c \in Cmds : Atomic(c, e) \/ ReqStart(c)
   \/ Internal(e)
   \/ Settle
-  \/ Mode = "c11" /\ (GenDone(e) \/ \E m \in ModIds, d \in ModIds, f \in DOMAIN Forms, p \in BOOLEAN :
-                                        GenEdge(m, d, Forms[f], p))
+  \/ GenDone(e)
+  \/ \E m \in ModIds, d \in ModIds, f \in DOMAIN Forms, p \in BOOLEAN : GenEdge(m, d, Forms[f], p)
 Next == NextE(TRUE)
 
 Spec == Init /\ [][Next]_vars /\ WF_vars(Internal(FALSE))
